@@ -70,8 +70,10 @@ class OutlineBase(plumpy.WorkChain):
             idx = sum(1 for t in tr if t.startswith('s'))
             script = self.inputs['rets']
             val = script[idx] if idx < len(script) else None
-            if val == '@AW':
-                val = HANDLE  # the step stops the chain with an object that happens to be awaitable: a value like any other
+            if val in SPECIAL_STOPS:
+                # the step stops the chain with an object that happens to be awaitable, or a mapping that is no dict (empty or not): a
+                # value like any other
+                val = SPECIAL_STOPS[val]
             if val == '@TC0':
                 val = plumpy.ToContext()  # a context assignment that happens to be empty (a fan-out over zero items): nothing to wait for, the chain goes on
         tr.append(name)
@@ -114,6 +116,8 @@ class _Handle:
 
 
 HANDLE = _Handle()
+import types as _types
+SPECIAL_STOPS = {'@AW': HANDLE, '@MAP0': _types.MappingProxyType({}), '@MAP1': _types.MappingProxyType({'k': 1})}
 
 
 class _Found:
